@@ -98,6 +98,7 @@ struct GenBuf : std::streambuf {
 						v = (flags << 44) | (uint64_t(rng.below(7)) << 8) | rng.below(16);
 					}
 					else if (n == 1 && rng.chance(0.05)) v = rng.below(256);
+					else if (pKind == verif::K_ENUM && rng.chance(0.7)) v = rng.below(8); // enumerators select branches: spread over the small values
 					else v = smallCount();
 					memcpy(p, &v, n);
 					lastInt = v;
